@@ -359,6 +359,7 @@ def plan(ctx):
     p.lemmas = [lemma_partition_gives_sum_hyps]
     p.lean = [lean.bridge_lemma("blocks_sum", SUM_TYPES, SUM_HYPS, SUM_CONCL, SUM_PROOF)]
     p.replayers = [replayer]
+    p.oracles = ["native/oracle_C20.py"]
     p.trusted = ["MPI itself (Allreduce = elementwise sum over ranks) is not modelled; the partition lemma is what "
                  "makes a sum over ranks of per-block sums equal the serial sum"]
     p.not_decided = ["asynchronous_range / RangeDistributor (thread + MPI message passing) are outside the modelled subset"]
